@@ -211,7 +211,9 @@ func Atomic(p unsafe.Pointer, op string, write bool) {
 		s.access(p, "atomic "+op, 3)
 	}
 	s.Acquire(p)
-	s.Release(p)
+	if write {
+		s.Release(p)
+	}
 }
 
 // RunningID returns the id of the running thread.
